@@ -67,34 +67,40 @@ func c19Conc(k, n, rounds int) string {
 	return "values=" + strings.Join(out, ",")
 }
 
-// metrics race <k> <rounds>: every round starts with the true count at a multiple of 8; k (<= 8) goroutines are
-// released together (spin barrier) and each does one Inc; the published value is read; then 8-k sequential Incs.
-// excess = published - true count right after the k concurrent Incs (8-k when the counter is right).
+// metrics race <k> <rounds>: every round starts with the true count at a multiple of 8; k (<= 8) persistent worker
+// goroutines, spinning on a phase word, are released together and each does one Inc; the published value is read;
+// then 8-k sequential Incs.  excess = published - true count right after the k concurrent Incs (8-k when the
+// counter is right).  Persistent spinning workers (no goroutine start per round) make hundreds of thousands of
+// boundary crossings per second, which is what a window of a few instructions needs.
 func c19Race(k, rounds int) string {
 	c := c19NewCounter()
 	total := uint64(0)
 	minEx, maxEx := int64(1<<62), int64(-(1 << 62))
-	for r := 0; r < rounds; r++ {
-		var wg sync.WaitGroup
-		var ready, goFlag int32
-		for g := 0; g < k; g++ {
-			wg.Add(1)
-			go func() {
-				defer wg.Done()
-				atomic.AddInt32(&ready, 1)
-				for spins := 0; atomic.LoadInt32(&goFlag) == 0; spins++ {
-					if spins&1023 == 1023 {
+	var phase, done, stop int64
+	var wg sync.WaitGroup
+	for g := 0; g < k; g++ {
+		wg.Add(1)
+		go func() {
+			defer wg.Done()
+			for p := int64(1); ; p++ {
+				for spins := 0; atomic.LoadInt64(&phase) < p; spins++ {
+					if atomic.LoadInt64(&stop) != 0 {
+						return
+					}
+					if spins&4095 == 4095 {
 						runtime.Gosched() // stay live on a loaded machine
 					}
 				}
 				c.Inc()
-			}()
-		}
-		for atomic.LoadInt32(&ready) != int32(k) {
+				atomic.AddInt64(&done, 1)
+			}
+		}()
+	}
+	for r := 1; r <= rounds; r++ {
+		atomic.StoreInt64(&phase, int64(r)) // release all workers
+		for atomic.LoadInt64(&done) != int64(r)*int64(k) {
 			runtime.Gosched()
 		}
-		atomic.StoreInt32(&goFlag, 1)
-		wg.Wait()
 		total += uint64(k)
 		ex := int64(c19ReadValue(c)) - int64(total)
 		if ex < minEx {
@@ -108,6 +114,8 @@ func c19Race(k, rounds int) string {
 			total++
 		}
 	}
+	atomic.StoreInt64(&stop, 1)
+	wg.Wait()
 	if rounds == 0 {
 		minEx, maxEx = 0, 0
 	}
@@ -148,6 +156,8 @@ func c19Case(args []string) string {
 		return c19Race(k, r)
 	case "ipc":
 		return c19Ipc(args[1:])
+	case "jipc":
+		return c19Jipc(args[1:])
 	}
 	return "!badcase"
 }
